@@ -261,6 +261,20 @@ def case_spectrum_time(ctx, nf, nt, frac_num, frac_den, kind="1d"):
             for j in range(3):
                 ctx.check(ctx.eq(got[0, i, j], E[k, i, j] * (1 - tt) + E[k + 1, i, j] * tt), "D-SP.2d")
                 ctx.check(ctx.eq(got[1, i, j], 7), "D-SP.extrapolation", info="outside the grid: extrapolation value")
+        # the documented default of the extrapolation value is 0 (2D spectra: WaveSpectrum.interpolate /
+        # interpolate_frequency themselves)
+        r0 = ctx.noraise("D-SP.raise", s2.interpolate, {"time": target})
+        g0 = np.asarray(r0.variance_density.values)
+        fout = ctx.const(np.array([4.0]))       # above the last grid frequency
+        rf = ctx.noraise("D-SP.raise", s2.interpolate_frequency, fout)
+        gf = np.asarray(rf.variance_density.values)
+        for i in range(nf):
+            for j in range(3):
+                ctx.check(ctx.eq(g0[1, i, j], 0), "D-SP.extrapolation.default", info="default extrapolation value 0 (time)")
+        for p in range(nt):
+            for j in range(3):
+                ctx.check(ctx.eq(gf[p, 0, j], 0), "D-SP.extrapolation.default",
+                          info="default extrapolation value 0 (frequency)")
         return
     r = ctx.noraise("D-SP.raise", s.interpolate, {"time": target})
     ge = np.asarray(r.variance_density.values)
